@@ -66,6 +66,18 @@ Theorem C16_indices_partition : forall ts : list (cterm R),
 Proof. exact indices_partition. Qed.
 Print Assumptions C16_indices_partition.
 
+(* data-dependent state of a spline term (after /repo e1fa477): the compiled term carries the edge knots of the data of the
+   LAST compile ((min, max), C03_compile_default_knots_min_max) unless the user gave knots, which are kept *)
+Theorem C16_spline_compile_uses_last_data : forall f cat n k p by_ cols col,
+  compile_spline Rfops f None cat n k p by_ (cols ++ [col]) =
+  option_map (fun e => SSpline f (fst e) (snd e) n k p by_) (gen_edge_knots Rfops cat col).
+Proof. exact compile_spline_default. Qed.
+Print Assumptions C16_spline_compile_uses_last_data.
+Theorem C16_spline_compile_keeps_user_knots : forall f lo hi cat n k p by_ cols,
+  compile_spline Rfops f (Some (lo, hi)) cat n k p by_ cols = Some (SSpline f lo hi n k p by_).
+Proof. exact compile_spline_given. Qed.
+Print Assumptions C16_spline_compile_keeps_user_knots.
+
 (* the rational instance evaluated by the correspondence check denotes the real instance *)
 Theorem C16_model_transfer : forall (ts : list (cterm Q)) (row : list Q),
   row_blocks Rfops (map cterm_Q2R ts) (map Q2R row) = option_map (map Q2R) (row_blocks Qfops ts row).
